@@ -41,6 +41,8 @@ type Contract struct {
 	UF        bool // external: result is an uninterpreted function of the arguments
 	Params    []string // external: parameter names
 	Results   []string // external / override: result names
+	Split     []string // interface parameters whose dynamic type is case-split in postcondition obligations
+	Expand    []string // callee names whose contract is ignored in this unit (body inlined instead)
 	NoInline  []string // callee names never inlined in this unit
 	Witness   string
 	Havoc     []string // callees whose call is treated as result-only havoc
@@ -222,7 +224,7 @@ var clauseKeywords = map[string]bool{
 	"func": true, "props": true, "mode": true, "requires": true, "ensures": true, "invariant": true,
 	"modifies": true, "safety": true, "overflow": true, "inline": true, "trusted": true, "dispatch": true,
 	"let": true, "spec": true, "external": true, "uf": true, "params": true, "results": true,
-	"global": true, "noinline": true, "witness": true, "havoc": true, "inlineall": true, "unroll": true,
+	"global": true, "noinline": true, "expand": true, "split": true, "witness": true, "havoc": true, "inlineall": true, "unroll": true,
 }
 
 // parseContractSource extracts the //@ lines of one file.
@@ -388,6 +390,10 @@ func (cs *ContractSet) parseContractSource(pkgPath, filename string, src []byte)
 				cur.Results = strings.Fields(strings.ReplaceAll(rest, ",", " "))
 			case "dispatch":
 				cur.Dispatch = append(cur.Dispatch, strings.Fields(strings.ReplaceAll(rest, ",", " "))...)
+			case "split":
+				cur.Split = append(cur.Split, strings.Fields(strings.ReplaceAll(rest, ",", " "))...)
+			case "expand":
+				cur.Expand = append(cur.Expand, strings.Fields(strings.ReplaceAll(rest, ",", " "))...)
 			case "noinline":
 				cur.NoInline = append(cur.NoInline, strings.Fields(strings.ReplaceAll(rest, ",", " "))...)
 			case "havoc":
